@@ -458,6 +458,8 @@ H("conn_first_packet_close_native", ["C08"], "replay-only", "connection::first_p
   [("x", "u8")], 4, [], ["Connection::handle_first_packet", "Connection::process_decrypted_packet", "Connection::handle_timeout"], "native replay body of E2 query e2_first_packet_close_gets_drain_timer; demonstration for finding 15")
 H("conn_new_idle_timeout_native", ["C08"], "replay-only", "connection::new_idle_timeout_native",
   [("ms", "u16")], 4, [], ["Connection::new", "Connection::reset_idle_timeout"], "native replay body of E2 query e2_connection_new_idle_timeout")
+H("conn_unauthentic_packet_inert_native", ["C04", "C03"], "replay-only", "connection::unauthentic_packet_inert_native",
+  [("first", "u8")], 4, [], ["Connection::handle_event", "Connection::decrypt_packet", "packet_crypto::decrypt_packet_body"], "native replay body of E2 query e2_decrypt_packet_body_authentic_first")
 H("conn_path_response_native", ["C15", "C07"], "replay-only", "connection::path_response_native",
   [("mode", "u8")], 4, [], ["Connection::handle_event", "Connection::process_payload"], "native replay body of E2 slice query e2_path_response_slice")
 H("conn_detect_lost_native", ["C12"], "replay-only", "connection::detect_lost_native",
